@@ -79,7 +79,7 @@ class Sched(object):
 
     def emit(self, op, obj=None, val=None):
         cur = me()
-        self.log.append((cur.name if cur else "-", op, obj, val))
+        self.log.append((cur.name if cur else "-", op, obj, val, self.now))
 
     # ---- scheduling ----------------------------------------------------------------------
     def pick(self, cur):
@@ -182,7 +182,7 @@ def wait_until(cond):
 def user(site, val=None):
     """Hook placed in scenario-supplied user code: a visible operation of kind V5."""
     switch("user")
-    if S is not None and me() is not None:
+    if S is not None and me() is not None and not S.quiet:
         S.emit("user:" + site, None, val)
 
 
@@ -195,7 +195,13 @@ def now():
     return S.now if S is not None else 0
 
 
-monotonic = now
+def monotonic():
+    """patched time.monotonic: virtual time; every read is logged (not a yield point)"""
+    if S is None:
+        return 0
+    if me() is not None and not S.aborting and not S.quiet:
+        S.emit("clock", None, S.now)
+    return S.now
 
 
 # ---- primitives ----------------------------------------------------------------------------
@@ -439,11 +445,11 @@ class DThread(object):
             except BaseException as e:  # a logical thread died with an exception
                 lt.exc = e
                 if not s.aborting:
-                    s.log.append((lt.name, "thread.died", None, type(e).__name__))
+                    s.log.append((lt.name, "thread.died", None, type(e).__name__, s.now))
             finally:
                 lt.done = True
                 if not s.aborting:
-                    s.log.append((lt.name, "thread.exit", None, None))
+                    s.log.append((lt.name, "thread.exit", None, None, s.now))
                     nxt = s.pick(lt)
                     if nxt is not None:
                         nxt.sem.release()
@@ -532,6 +538,26 @@ def patch_future():
     wrapwait("exception")
 
 
+def patch_me_future():
+    """Name every library future and its _me_lock at construction, in creation order: r<k> / M<k>."""
+    from more_executors._impl import common
+    if getattr(common._Future.__init__, "_verif", False):
+        return
+    orig = common._Future.__init__
+
+    def init(self):
+        orig(self)
+        if S is not None:
+            k = S.counters["mefut"]
+            S.counters["mefut"] += 1
+            S.name(self, "r%d" % k)
+            S.name(self._me_lock, "M%d" % k)
+            self._verif_id = k
+
+    init._verif = True
+    common._Future.__init__ = init
+
+
 class atomic(object):
     """with atomic(): no yield points inside (used by scenario/env code for its own bookkeeping)."""
 
@@ -559,6 +585,7 @@ def install(pool=False):
     shim = types.SimpleNamespace(Condition=DCondition, Event=DEvent, Lock=DLock, RLock=DRLock)
     base.threading = shim
     patch_future()
+    patch_me_future()
     from more_executors._impl import retry, poll, throttle, timeout, event, common, helpers, \
         cancel_on_shutdown, metrics
     from more_executors._impl.futures import bool as fbool, zip as fzip, timeout as ftimeout
